@@ -576,10 +576,18 @@ func (f *Field) applyOptions(opt FieldOptions) error {
 		f.options.Type = opt.Type
 		f.options.CacheType = CacheTypeNone
 		f.options.CacheSize = 0
+		// A bit depth of zero is how loadMeta recognises a meta file written
+		// before base and bit depth existed (it then rebases the field to its
+		// minimum), so a field never keeps a bit depth of zero: a new field
+		// whose values were all 0 would read its minimum after a restart.
+		bitDepth := opt.BitDepth
+		if bitDepth == 0 {
+			bitDepth = 1
+		}
 		f.options.Min = opt.Min
 		f.options.Max = opt.Max
 		f.options.Base = opt.Base
-		f.options.BitDepth = opt.BitDepth
+		f.options.BitDepth = bitDepth
 		f.options.TimeQuantum = ""
 		f.options.Keys = opt.Keys
 
@@ -590,7 +598,7 @@ func (f *Field) applyOptions(opt FieldOptions) error {
 			Min:      opt.Min,
 			Max:      opt.Max,
 			Base:     opt.Base,
-			BitDepth: opt.BitDepth,
+			BitDepth: bitDepth,
 		}
 		// Validate bsiGroup.
 		if err := bsig.validate(); err != nil {
